@@ -656,4 +656,190 @@ theorem bare_flat (o : SubsetOut) (tree : List Node) (id : List Char) (hits : Li
   unfold flatFilter
   rw [← zip_filter_range id o.vals o.descs]
 
+/-! ### the bare-id search of an ordinary element succeeds -/
+
+theorem concatConts_total : ∀ (ks : List Cont), (∀ k ∈ ks, ∃ h, k = .ok h) → ∃ hits, concatConts ks = .ok hits
+  | [], _ => ⟨[], rfl⟩
+  | k :: ks, h => by
+    obtain ⟨h1, rfl⟩ := h k List.mem_cons_self
+    obtain ⟨h2, hh2⟩ := concatConts_total ks (fun k' hk' => h k' (List.mem_cons_of_mem _ hk'))
+    exact ⟨h1 ++ h2, by rw [concatConts, hh2]⟩
+
+theorem envC_total : ∀ (ks : List Cont), (∀ k ∈ ks, ∃ h, k = .ok h) → ∃ env, envC ks = .ok env
+  | [], _ => ⟨[], rfl⟩
+  | k :: ks, h => by
+    obtain ⟨h1, rfl⟩ := h k List.mem_cons_self
+    obtain ⟨h2, hh2⟩ := envC_total ks (fun k' hk' => h k' (List.mem_cons_of_mem _ hk'))
+    exact ⟨_, by rw [envC, hh2]⟩
+
+/-- what is proved by induction: on a well-shaped node the continuation for the bare id does not fail -/
+def DescTotal (o : SubsetOut) (id : List Char) (n : Node) : Prop :=
+  repsOK1 o n = true → ∃ hits, contFor o.descs (bare id) [] n = .ok hits
+
+theorem selectRun_total (o : SubsetOut) (id : List Char) (ns : List Node)
+    (hP : ∀ m ∈ ns, DescTotal o id m) (hS : ∀ m ∈ ns, repsOK1 o m = true) :
+    ∃ hits, selectRun o.descs (bare id) (ns.zip (contList o.descs ns (bare id) [])) = .ok hits := by
+  rw [selectRun_bare]
+  apply concatConts_total
+  intro k hk
+  obtain ⟨m, hm, rfl⟩ := List.mem_map.mp hk
+  exact hP m hm (hS m hm)
+
+theorem rep_total (o : SubsetOut) (id : List Char) (n k : Nat) (ms : List Node) (hlen : ms.length = k * n)
+    (hP : ∀ m ∈ ms, DescTotal o id m) (hS : ∀ m ∈ ms, repsOK1 o m = true) :
+    ∃ hits, (if ms.isEmpty then .ok [] else if n = 0 then .error .other
+      else wrapC (envelope o.descs (bare id) (blocks n ms.length (ms.zip (contList o.descs ms (bare id) []))))) =
+        (.ok hits : Cont) := by
+  cases hms : ms with
+  | nil => exact ⟨[], rfl⟩
+  | cons m0 ms' =>
+    rw [← hms]
+    have hne : ms.isEmpty = false := by rw [hms]; rfl
+    have hn : n ≠ 0 := by
+      intro h0
+      rw [h0, Nat.mul_zero, hms] at hlen
+      simp at hlen
+    rw [hne]
+    simp only [Bool.false_eq_true, if_false, if_neg hn]
+    rw [contList_eq_map, zip_map_self, blocks_map, envelope_eq, List.map_map]
+    obtain ⟨env, henv⟩ := envC_total ((blocks n ms.length ms).map
+      ((selectRun o.descs (bare id)) ∘ (List.map (fun m => (m, contFor o.descs (bare id) [] m))))) (by
+        intro k' hk'
+        obtain ⟨B, hB, rfl⟩ := List.mem_map.mp hk'
+        have hsub : ∀ m ∈ B, m ∈ ms := by
+          intro m hm
+          have hfl := blocks_flatten n (Nat.pos_of_ne_zero hn) ms.length ms (Nat.le_refl _)
+          rw [← hfl]
+          exact List.mem_flatten.mpr ⟨B, hB, hm⟩
+        obtain ⟨hits, hh⟩ := selectRun_total o id B (fun m hm => hP m (hsub m hm)) (fun m hm => hS m (hsub m hm))
+        rw [contList_eq_map, zip_map_self] at hh
+        exact ⟨hits, hh⟩)
+    rw [henv]
+    exact ⟨_, rfl⟩
+
+theorem descTotal_all (o : SubsetOut) (id : List Char) : ∀ n, DescTotal o id n := by
+  apply Node.induct' (DescTotal o id)
+  · intro k i attrs ih hS
+    by_cases hl : nodeLabel o.descs (.value k i attrs) = some id
+    · exact ⟨_, contFor_bare_hit o.descs id _ hl⟩
+    · cases hattrs : attrs with
+      | nil => exact ⟨_, contFor_bare_no o.descs id _ hl rfl⟩
+      | cons a as =>
+        rw [← hattrs]
+        have hne : attrs.isEmpty = false := by rw [hattrs]; rfl
+        rw [contFor_bare_keep o.descs id _ hl (by simp [composite, hne]), subNodes_value, stepNode_bare]
+        simp only [descStep, attrStep, hne, Bool.false_eq_true, if_false]
+        rw [repsOK1] at hS
+        exact selectRun_total o id attrs ih (repsOKList_mem o attrs hS)
+  · intro i _
+    by_cases hl : nodeLabel o.descs (.noval i) = some id
+    · exact ⟨_, contFor_bare_hit o.descs id _ hl⟩
+    · exact ⟨_, contFor_bare_no o.descs id _ hl rfl⟩
+  · intro i ms ih hS
+    by_cases hl : nodeLabel o.descs (.seq i ms) = some id
+    · exact ⟨_, contFor_bare_hit o.descs id _ hl⟩
+    · rw [contFor_bare_keep o.descs id _ hl rfl, subNodes_seq, stepNode_bare]
+      simp only [descStep, childStep]
+      rw [repsOK1] at hS
+      exact selectRun_total o id ms ih (repsOKList_mem o ms hS)
+  · intro i n ms ih hS
+    by_cases hl : nodeLabel o.descs (.fixedRep i n ms) = some id
+    · exact ⟨_, contFor_bare_hit o.descs id _ hl⟩
+    · rw [contFor_bare_keep o.descs id _ hl rfl, subNodes_fixed, stepNode_bare]
+      simp only [descStep]
+      rw [childStep_fixed]
+      rw [repsOK1, Bool.and_eq_true] at hS
+      exact rep_total o id n (yOf i) ms (by simpa using hS.1) ih (repsOKList_mem o ms hS.2)
+  · intro i n f ms ihf ih hS
+    by_cases hl : nodeLabel o.descs (.delayedRep i n f ms) = some id
+    · exact ⟨_, contFor_bare_hit o.descs id _ hl⟩
+    · cases f with
+      | value kf fi fattrs =>
+        rw [repsOK1, Bool.and_eq_true] at hS
+        have h1 := hS.1
+        simp only [Bool.and_eq_true] at h1
+        cases hk : wireCount o fi with
+        | error e => rw [hk] at h1; simp at h1
+        | ok cnt =>
+          rw [hk] at h1
+          rw [contFor_bare_keep o.descs id _ hl rfl, subNodes_delayed, stepNode_bare]
+          simp only [descStep, attrStep]
+          rw [childStep_delayed]
+          have hf : repsOK1 o (.value kf fi fattrs) = true := by rw [repsOK1]; exact h1.2
+          obtain ⟨hs, hhs⟩ := selectRun_total o id [.value kf fi fattrs]
+            (by intro m hm; rw [List.mem_singleton] at hm; subst hm; exact ihf)
+            (by intro m hm; rw [List.mem_singleton] at hm; subst hm; exact hf)
+          rw [contList_eq_map] at hhs
+          obtain ⟨hs', hhs'⟩ := rep_total o id n cnt ms (by simpa using h1.1) ih (repsOKList_mem o ms hS.2)
+          simp only [List.map_cons, List.map_nil, List.zip_cons_cons, List.zip_nil_right] at hhs
+          rw [hhs, hhs']
+          exact ⟨_, rfl⟩
+      | noval _ => simp [repsOK1] at hS
+      | seq _ _ => simp [repsOK1] at hS
+      | fixedRep _ _ _ => simp [repsOK1] at hS
+      | delayedRep _ _ _ _ => simp [repsOK1] at hS
+
+theorem processOne_bare_total (o : SubsetOut) (id : List Char) (tree : List Node) (hS : repsOKList o tree = true) :
+    ∃ hits, processOne o.descs tree [bare id] = .ok hits := by
+  simp only [processOne]
+  rw [if_neg (by simp [bare])]
+  exact selectRun_total o id tree (fun m _ => descTotal_all o id m) (repsOKList_mem o tree hS)
+
+mutual
+theorem valuesOf_total (vals : List Val) : ∀ (hits : List Hit),
+    (∀ n ∈ hitNodes hits, (nodeVal vals n).isSome = true) → ∃ vs, valuesOf vals hits = .ok vs
+  | [], _ => ⟨[], valuesOf_nil vals⟩
+  | x :: xs, h => by
+    rw [hitNodes] at h
+    obtain ⟨v, hv⟩ := valueOf1_total vals x (fun n hn => h n (List.mem_append_left _ hn))
+    obtain ⟨vs, hvs⟩ := valuesOf_total vals xs (fun n hn => h n (List.mem_append_right _ hn))
+    exact ⟨v :: vs, by rw [valuesOf_cons, hv, hvs]⟩
+
+theorem valueOf1_total (vals : List Val) : ∀ (x : Hit),
+    (∀ n ∈ hitNodes1 x, (nodeVal vals n).isSome = true) → ∃ v, valueOf1 vals x = .ok v
+  | .list l, h => by
+    rw [hitNodes1] at h
+    obtain ⟨vs, hvs⟩ := valuesOf_total vals l h
+    exact ⟨.list vs, by rw [valueOf1_list, hvs]⟩
+  | .node (.value k i attrs), h => by
+    have := h (.value k i attrs) (by rw [hitNodes1]; exact List.mem_singleton.mpr rfl)
+    simp only [nodeVal] at this
+    cases hv : vals[i]? with
+    | none => rw [hv] at this; cases this
+    | some v => exact ⟨.val v, by rw [valueOf1, hv]⟩
+  | .node (.noval j), h => by
+    have := h (.noval j) (by rw [hitNodes1]; exact List.mem_singleton.mpr rfl)
+    simp [nodeVal] at this
+  | .node (.seq j ms), h => by
+    have := h (.seq j ms) (by rw [hitNodes1]; exact List.mem_singleton.mpr rfl)
+    simp [nodeVal] at this
+  | .node (.fixedRep j n ms), h => by
+    have := h (.fixedRep j n ms) (by rw [hitNodes1]; exact List.mem_singleton.mpr rfl)
+    simp [nodeVal] at this
+  | .node (.delayedRep j n f ms), h => by
+    have := h (.delayedRep j n f ms) (by rw [hitNodes1]; exact List.mem_singleton.mpr rfl)
+    simp [nodeVal] at this
+end
+
+/-- the bare id of an ordinary element on a well-shaped tree whose indices are the flat positions: the query
+    succeeds and returns the values carrying the id in the flat data, in order -/
+theorem bare_flat_total (o : SubsetOut) (tree : List Node) (id : List Char)
+    (hidx : idxList tree = List.range o.vals.length) (hord : ordinaryList o.descs id tree = true)
+    (hS : repsOKList o tree = true) :
+    ∃ hits vs, processOne o.descs tree [bare id] = .ok hits ∧ valuesOf o.vals hits = .ok vs ∧
+      flattenQV vs = flatFilter o id := by
+  obtain ⟨hits, hh⟩ := processOne_bare_total o id tree hS
+  have hm := processOne_bare o.descs id tree hits hh
+  have hall : ∀ n ∈ hitNodes hits, (nodeVal o.vals n).isSome = true := by
+    intro n hn
+    have hmem : nodeVal o.vals n ∈ (matchList o.descs id tree).map (nodeVal o.vals) := by
+      rw [← hm]; exact List.mem_map_of_mem hn
+    rw [ordList o.descs o.vals id tree (fun m _ => ordOK_all o.descs o.vals id m) hord, hidx] at hmem
+    obtain ⟨j, hj, hjv⟩ := List.mem_map.mp hmem
+    have hjlt : j < o.vals.length := List.mem_range.mp (List.mem_filter.mp hj).1
+    rw [← hjv, List.getElem?_eq_getElem hjlt]
+    rfl
+  obtain ⟨vs, hv⟩ := valuesOf_total o.vals hits hall
+  exact ⟨hits, vs, hh, hv, bare_flat o tree id hits vs hidx hord hh hv⟩
+
 end Bufr.C16
